@@ -66,6 +66,7 @@ NOT_APPLICABLE = {
  "C02": "needs execution of run-time generated Cranelift machine code and the C01 pipeline; no symbolic engine here executes generated code (DESIGN §4 C02)",
  "C08": "continuation capture/reinstatement are VmCore methods over a live frame stack; no unit-level state can be built without a running engine (DESIGN §4 C08)",
  "C09": "frame reuse is inlined in the 1400-line VmCore::vm dispatch loop whose static reach is the whole interpreter; the quantity (space over 10^7 iterations) is not a bounded-unrolling question (DESIGN §4 C09)",
+ "C11": "measured: the real equality handler drops the two values it popped at every loop iteration; CBMC cannot resolve their variant and executes the drop glue of every SteelVal variant: the two-level shapes never left symbolic execution (>1200 s, 12 GB), and the one-step pair harness (harness/eq.rs) finished once in 146 s and timed out at 1200 s in four later runs, so it does not meet the calibration rule; hashing and the collection-vs-model half need hash containers (not tractable, see C03). The defect F7 it was aimed at is recorded in DESIGN §5 from the round-0 native reproduction",
  "C12": "measured: a 2-byte symbolic input through the real lexer does not leave CBMC's symbolic execution in 15 min / 5 GB; a smaller bound would be weaker than the existing lexer tests (DESIGN §4 C12)",
  "C13": "macro expansion is AST rewriting over interned identifiers; the observable (which binding an identifier resolves to) exists only after compiling and running the expansion (DESIGN §4 C13)",
  "C14": "module instantiation needs the C01 pipeline plus the file system and the engine's module table (DESIGN §4 C14)",
